@@ -184,10 +184,39 @@ def run_large(case):
     return ok(nt=True, cls=["k=%d" % k], counts={"vectors": len(vectors)}, cycles=len(vectors))
 
 
+# ------------------------------------------------------------------------------------ every width (enumerated)
+
+def enum_widths(tier):
+    return [{"k": k, "all": tier != "quick"} for k in range(9, 129)]
+
+
+def run_widths(case):
+    """every data width 9..128: no flip and single flips at the first, last, power-of-two and neighbouring code word positions
+    (thorough: at every position) for the all-ones word and a word derived from the width"""
+    k = case["k"]
+    m, n = _mn(k)
+    if case.get("all"):
+        pos = list(range(n + 1))
+    else:
+        pos = sorted({p for p in [0, 1, 2, 3, 4, 5, 7, 8, 9, 15, 16, 17, 31, 32, 33, 63, 64, 65, 127, 128, n - 2, n - 1, n] if 0 <= p <= n})
+    words = [(1 << k) - 1, (0x9E3779B97F4A7C15F39CC0605CEDC834 * (k + 1) >> 3) & ((1 << k) - 1)]
+    vectors = []
+    for w in words:
+        vectors += [(w, 0, 1)] + [(w, 1 << p_, 1) for p_ in pos]
+    vectors += [(words[1], 1 << pos[-1], 0)]
+    res = evaluate(k, vectors)
+    v = judge(k, vectors, res)
+    if v:
+        return bad(v[0], v[1], key="ecc:" + v[0], counts={"vectors": len(vectors)})
+    return ok(nt=True, cls=["k=%d" % k], counts={"vectors": len(vectors)}, cycles=len(vectors))
+
+
 def subchecks():
     return [
         Sub("small-exhaustive", run_small, enum=enum_small, exhaustive=True, timeout=(900, 20000),
             rule="k=1..8 (thorough 1..12): all words x all 0/1/2-flip patterns + disabled pass-through"),
+        Sub("all-widths", run_widths, enum=enum_widths, exhaustive=True, timeout=(900, 20000),
+            rule="every data width 9..128: single flips at the boundary / power-of-two positions of the code word (thorough: every position)"),
         Sub("large", run_large, strategy=st_large, examples=(48, 1500), timeout=(900, 20000),
             rule="k in 9..128: boundary/generated words x all single flips x generated double flips; linearity"),
     ]
